@@ -10,6 +10,7 @@ UNIT = {
     'property': 'C17',
     'rlimit': 60,
     'verus_args': ['--edition=2024'],
+    'controls': 'auto',
     'vacuity_floor': 2,
     'items': [
         ('@raw', 'pub mod ae {\n' + MOD_HEAD),
